@@ -377,6 +377,8 @@ def ascii_part_C07(ctx):
 def ascii_part_C06(ctx):
     import asciigen
     add_coq(ctx, "Props/Properties_C06_ascii.v")
+    if os.path.exists(os.path.join(fw.COQ, "Props/Properties_C06_ascii_props.v")):
+        add_coq(ctx, "Props/Properties_C06_ascii_props.v")      # the round trip WITH properties, every reader configuration (IO/Ascii2*.v)
     thorough = not ctx.quick()
     cases, expect, wtext, wdescs = asciigen.generate(ctx.seed, thorough)
     if thorough:
